@@ -36,6 +36,18 @@ impl Process for Rec {
     }
 }
 
+/// A process that fails on the atom `die` and whose terminate() parks at the harness gate `proc.terminate`.
+pub struct SlowTerm { pub name: String, pub log: Log }
+impl Process for SlowTerm {
+    async fn handle_message(&mut self, msg: Message) -> edp_node::Result<()> {
+        let d = describe(&msg);
+        self.log.lock().unwrap().push((self.name.clone(), d));
+        if let Message::Regular { body: OwnedTerm::Atom(a), .. } = &msg { if a.as_str() == "die" { return Err(edp_node::Error::InvalidMessage("asked to die".into())); } }
+        Ok(())
+    }
+    async fn terminate(&mut self) { edp_client::verif::point("proc.terminate").await; }
+}
+
 /// A process whose handler panics on the atom `boom`: its task dies without the clean-up of an orderly exit.
 pub struct Bomb;
 impl Process for Bomb {
